@@ -506,3 +506,36 @@ _SCAN_LOOP = '            PatternMatchMode::InAnyOrder => {\n                for
 M('c01-loopscan-rev', [(EV, _SCAN_OLD, _SCAN_LOOP.replace('.iter().enumerate() {', '.iter().enumerate().rev() {'))], {'C01': r'R01\.1'})
 M('c01-loopscan-stop-at-reject', [(EV, _SCAN_OLD, _SCAN_LOOP.replace('Ok(false) => {}', 'Ok(false) => return Ok(None),'))], {'C01': r'R01\.1'})
 M('c01-loopscan-last-wins', [(EV, _SCAN_OLD, _SCAN_LOOP.replace('for (pat_index', 'let mut found = None;\n                for (pat_index').replace('Ok(true) => return Ok(Some((PatIndex(pat_index), call_pattern))),', 'Ok(true) => { found = Some((PatIndex(pat_index), call_pattern)); }').replace('Ok(None)\n            }', 'Ok(found)\n            }'))], {'C01': r'R01\.1'})
+
+# ---- rules added for the second round of seeds -------------------------------------------------------------------------------
+M('c05-eager-debug-inputs', [(EV, '''    let dyn_ctx = DynCtx {
+        info: F::info(),''', '''    let _rendered = F::debug_inputs(&inputs);
+    let dyn_ctx = DynCtx {
+        info: F::info(),''')], {'C05': r'R05\.7'})
+M('c12-at-least-once-flavour', [('src/build.rs', '''        self.wrapper.push_returner_result(
+            self.return_value
+                .take()
+                .unwrap()
+                .into_return()
+                .map(|r| r.into_returner()),
+        );
+        self.wrapper.quantify(times, counter::Exactness::AtLeast);''', '''        let value = self.return_value.take().unwrap();
+        let converted = if times == 1 { value.into_return_once() } else { value.into_return() };
+        self.wrapper.push_returner_result(converted.map(|r| r.into_returner()));
+        self.wrapper.quantify(times, counter::Exactness::AtLeast);''')], {'C12': r'R12\.7'})
+M('c13-helper-cell-replaced', [(LIB, '''        self.default_impl_delegator_cell
+            .get_or_init(|| alloc::Box::new(DefaultImplDelegator::__from_unimock(self.clone())));
+        self.default_impl_delegator_cell.get_mut().unwrap()''', '''        let delegator = DefaultImplDelegator::__from_unimock(self.clone());
+        self.default_impl_delegator_cell = alloc::Box::new(delegator).into();
+        self.default_impl_delegator_cell.get_mut().unwrap()''')], {'C13': r'R13\.6'})
+M('c19-expected-pattern-first-of-method', [('src/state.rs', '''            let (pat_index, _) = fn_mocker.find_call_pattern_for_call_order(ordered_call_index)?;
+
+            Some(fn_mocker.debug_pattern(pat_index))''', '''            let (_, _) = fn_mocker.find_call_pattern_for_call_order(ordered_call_index)?;
+
+            Some(fn_mocker.debug_pattern(crate::call_pattern::PatIndex(0)))''')], {'C19': r'R19\.7'})
+M('c11-count-before-match', [(EV, '''                let mut mismatch_reporter = MismatchReporter::new_enabled();
+
+                if !match_inputs(pattern, Some(&mut mismatch_reporter))''', '''                let _ = pattern.next_responder();
+                let mut mismatch_reporter = MismatchReporter::new_enabled();
+
+                if !match_inputs(pattern, Some(&mut mismatch_reporter))''')], {'C11': r'R11\.4', 'C03': r'R03\.5', 'C04': r'R04\.7'})
